@@ -11,3 +11,52 @@ class Plain(plumpy.Process):
 class CtxProc(plumpy.mixins.ContextMixin, plumpy.Process):
     def run(self):
         return None
+
+
+class ScopeProc(plumpy.Process):
+    @classmethod
+    def define(cls, spec):
+        super().define(spec)
+        spec.input('gate', required=False)
+
+    def __init__(self, *a, **k):
+        super().__init__(*a, **k)
+        self.seen = []
+
+    async def run(self):
+        self.seen.append(('run-before-await', plumpy.Process.current()))
+        child = Plain()
+        child.execute()   # nested, re-entrant execution of another process
+        self.seen.append(('run-after-nested', plumpy.Process.current()))
+        await self.inputs.gate
+        self.seen.append(('run-after-await', plumpy.Process.current()))
+        self.call_soon(lambda: self.seen.append(('call_soon', plumpy.Process.current())))
+        return plumpy.Continue(self.second)
+
+    def second(self):
+        self.seen.append(('continuation', plumpy.Process.current()))
+
+
+class HookProc(plumpy.Process):
+    def __init__(self, *a, **k):
+        self.seen = []
+        super().__init__(*a, **k)
+
+    def run(self):
+        self.seen.append(('run', plumpy.Process.current()))
+
+    def on_run(self):
+        super().on_run()
+        self.seen.append(('on_run', plumpy.Process.current()))
+
+    def on_running(self):
+        super().on_running()
+        self.seen.append(('on_running', plumpy.Process.current()))
+
+    def on_finish(self, result, successful):
+        super().on_finish(result, successful)
+        self.seen.append(('on_finish', plumpy.Process.current()))
+
+    def on_finished(self):
+        super().on_finished()
+        self.seen.append(('on_finished', plumpy.Process.current()))
